@@ -209,7 +209,18 @@ def stageUri (env : SrvEnv) (uri : Bytes) : Stage Unit :=
   | none => bad
   | some u => if u.fragment ≠ [] then bad else .ok ()
 
-/-- exactly one Host; a port, if present, parses and matches `externalPort` when that is set -/
+def digitVal (c : UInt8) : Nat := c.toNat - 48
+
+/-- `_HTTP_PORT_PAT.fullmatch(p)` with the pattern `[0-9]*`, then `int(p)` unless `p` is empty
+(fix PENDING-server-host-port-syntax; before it `int(p.strip())`: `+8_0`, `-1`, ` 80` were read as ports).
+`none` = refused (not all digits, or more digits than `int()` converts), `some none` = empty port (treated as no port) -/
+def portNumeral (p : Bytes) : Option (Option Nat) :=
+  if p.all isDigit then
+    if p = [] then some none
+    else if p.length ≤ maxStrDigits then some (some (p.foldl (fun v c => v * 10 + digitVal c) 0)) else none
+  else none
+
+/-- exactly one Host; a port, if present, is a digit string and matches `externalPort` when that is set -/
 def stageHost (cfg : SrvCfg) (hs : List Hdr) : Stage Unit :=
   match hget hs b!"host" with
   | none => bad
@@ -220,9 +231,10 @@ def stageHost (cfg : SrvCfg) (hs : List Hdr) : Stage Unit :=
       match rcut 58 host with
       | none => bad      -- unreachable: `host` contains ':'
       | some (_, p) =>
-        match pyInt (strip p) with
+        match portNumeral p with
         | none => bad
-        | some port => if cfg.externalPort ≠ 0 ∧ port ≠ (cfg.externalPort : Int) then bad else .ok ()
+        | some none => .ok ()
+        | some (some port) => if cfg.externalPort ≠ 0 ∧ port ≠ cfg.externalPort then bad else .ok ()
     else .ok ()
 
 /-- no Upgrade header: status page / redirect (if `webStatus`) or 426; else it must list `websocket` -/
@@ -247,8 +259,6 @@ def stageConnection (hs : List Hdr) : Stage Unit :=
 /-- `",".join(str(x) for x in reversed(sorted(versions)))` -/
 def versionsDesc (vs : List Nat) : Bytes :=
   join [44] ((vs.mergeSort (fun a b => decide (b ≤ a))).map natDigits)
-
-def digitVal (c : UInt8) : Nat := c.toNat - 48
 
 /-- `_WS_VERSION_PAT.fullmatch(v)` with the pattern `[0-9]|[1-9][0-9]|1[0-9][0-9]|2[0-4][0-9]|25[0-5]`, then `int(v)`
 (fix 3f5d73c8; before it the value went through `int()` alone: `+13`, `1_3`, `013` were read as 13) -/
@@ -607,14 +617,21 @@ def requestLineOk (env : SrvEnv) (line : Bytes) : Bool :=
       (match urlsplit env.brOk uri with | some u => u.fragment == [] | none => false)
   | _ => false
 
-/-- Host value: `host`, `[v6]`, or `host:port` with a numeric port that equals the external port if one is configured -/
+/-- RFC 7230 §5.4 / RFC 3986 §3.2.3 `port = *DIGIT`, read digit by digit (the Spec's own rule: no sign, blank or
+separator; it shares nothing with the model of Python's `int()`); `none` = not a port -/
+def rfcPort : Bytes → Nat → Option Nat
+  | [], acc => some acc
+  | c :: r, acc => if 48 ≤ c && c ≤ 57 then rfcPort r (acc * 10 + (c.toNat - 48)) else none
+
+/-- Host value: `host`, `[v6]`, or `host:port` with `port = *DIGIT` (at most 4300 digits: longer numerals are refused,
+an implementation limit of the integer conversion) that, unless empty, equals the external port if one is configured -/
 def hostOk (cfg : SrvCfg) (v : Bytes) : Bool :=
   let host := strip v
   if contains 58 host && host.getLast? ≠ some 93 then
     match rcut 58 host with
     | some (_, p) =>
-      (match pyInt (strip p) with
-       | some port => cfg.externalPort == 0 || port == (cfg.externalPort : Int)
+      (match rfcPort p 0 with
+       | some port => p == [] || (p.length ≤ 4300 && (cfg.externalPort == 0 || port == cfg.externalPort))
        | none => false)
     | none => false
   else true
